@@ -204,7 +204,13 @@ class SymmetryAnalyzer(object):
         Returns:
             bool: is the object chiral.
         """
-        operations = self.get_symmetry_operations()
+        # Chirality is a property of the space group type. The operations that
+        # spglib reports for the given cell are not used here: for a supercell
+        # whose lattice is not invariant under all operations of the group
+        # (e.g. a 2x1x1 supercell of a tetragonal crystal) some of them,
+        # possibly all improper ones, are missing from that list.
+        dataset = self.get_symmetry_dataset()
+        operations = spglib.get_symmetry_from_database(dataset.hall_number)
         rotations = operations["rotations"]
         chiral = True
         for rotation in rotations:
